@@ -15,6 +15,7 @@ class FakeNet:
         self.set_cookie = set_cookie
         self.n = 0
         self.moved = set()       # hosts whose profile advertises the moved service path from now on
+        self.elsewhere = set()   # hosts whose profile advertises a service URL on ANOTHER host from now on
 
     def open(self, handler, req):
         self.n += 1
@@ -32,6 +33,8 @@ class FakeNet:
             adv = req.full_url if req.host not in self.moved else req.full_url.rstrip("/") + "/v2"
             if req.full_url.endswith("/v2"):
                 adv = req.full_url
+            if req.host in self.elsewhere:
+                adv = "https://svc-" + req.host.split("-", 1)[1] + "/ofx"
             body = profile_bytes(T0, url=adv)
         r = urllib.response.addinfourl(io.BytesIO(body), msg, req.full_url, 200)
         r.msg = "OK"
@@ -60,10 +63,13 @@ def run_scenario(persist, set_cookie, seq):
         for c, kind in seq:
             cl = clients[c]
             before = len(net.log)
-            if kind in ("full", "moved"):
+            if kind in ("full", "moved", "elsewhere"):
                 # with the profile look-up: a profile request, then the request itself (same host: the profile says so)
                 if kind == "moved":
                     net.moved.add(f"bank-{c.lower()}.example")
+                    net.elsewhere.discard(f"bank-{c.lower()}.example")
+                if kind == "elsewhere":
+                    net.elsewhere.add(f"bank-{c.lower()}.example")
                 r = cl.request_accounts(f"secret{c}", DT)
             else:
                 r = cl.request_accounts(f"secret{c}", DT, dryrun=(kind == "dry"), skip_profile=True)
@@ -80,36 +86,45 @@ def check_scenario(it, fn, a):
     log, results, urls = run_scenario(persist, set_cookie, seq)
     problems = []
     li = 0
-    seen_cookie = {"A": None, "B": None}
-    moved_seen = set()
+    import urllib.parse
+    seen_cookie = {}             # (client, host) -> the newest cookie that host has set for that client
+    host_of = lambda u: urllib.parse.urlsplit(u).hostname
+    adv = dict(urls)             # client -> the service URL its institution's profile advertises at this point
     for c, kind, nreq, body in results:
         if kind == "moved":
-            moved_seen.add(f"moved-{c}")
+            adv[c] = urls[c] + "/v2"
+        if kind == "elsewhere":
+            adv[c] = f"https://svc-{c.lower()}.example/ofx"
         if kind == "dry":
             if nreq != 0:
                 problems.append(f"dry run of {c} sent {nreq} requests")
             if not body.startswith((b"OFXHEADER", b"<?xml")):
                 problems.append("dry run did not return the request")
             continue
-        if kind in ("full", "moved"):
+        if kind in ("full", "moved", "elsewhere"):
             # one profile request (cached afterwards: the scripted server sends the same date, so later calls ask again
             # and are told the same) + the request itself; every one of them replays the newest cookie of this client
             if nreq != 2:
                 problems.append(f"{c}: {nreq} requests for a call with profile look-up (expected 2)")
             for k_ in range(nreq):
                 r = log[li]; li += 1
+                if k_ == 0 and r["url"] != urls[c]:
+                    problems.append(f"{c}: the profile request went to {r['url']}, configured {urls[c]}")
                 if k_ == 1:
                     # the request itself goes where the profile just received says - and only there
-                    want_url = urls[c] + ("/v2" if f"moved-{c}" in moved_seen else "")
+                    want_url = adv[c]
                     if r["url"] != want_url:
                         problems.append(f"{c}: the request went to {r['url']}, the institution's profile advertises {want_url}")
-                expect = seen_cookie[c] if (persist and set_cookie) else None
+                h = host_of(r["url"])
+                expect = seen_cookie.get((c, h)) if (persist and set_cookie) else None
                 if (r["cookie"] or None) != expect:
-                    problems.append(f"{c}: Cookie {r['cookie']!r}, expected {expect!r} (request {li} of the sequence)")
+                    problems.append(f"{c}: Cookie {r['cookie']!r} sent to {h}, expected {expect!r}: the newest cookie that host set on this client (request {li} of the sequence)")
                 if (r["headers"].get("user-agent") or "") != UA[c]:
                     problems.append(f"{c}: user agent {r['headers'].get('user-agent')!r}, configured {UA[c]!r}")
+                if r["method"] != "POST":
+                    problems.append(f"{c}: {r['method']} {r['url']}")
                 if set_cookie:
-                    seen_cookie[c] = f"sid=c{li}-bank-{c.lower()}.example"
+                    seen_cookie[(c, h)] = f"sid=c{li}-{h}"
             continue
         if nreq != 1:
             problems.append(f"{c} sent {nreq} requests for one call")
@@ -123,20 +138,21 @@ def check_scenario(it, fn, a):
         if not r["body"] or f"secret{c}".encode() not in r["body"]:
             problems.append(f"{c}: body is not the serialized request")
         other = "B" if c == "A" else "A"
-        if r["cookie"] and f"bank-{other.lower()}" in r["cookie"]:
+        if r["cookie"] and f"-{other.lower()}.example" in r["cookie"]:
             problems.append(f"{c} replayed a cookie of {other}: {r['cookie']}")
-        expect = seen_cookie[c] if (persist and set_cookie) else None
+        h = host_of(r["url"])
+        expect = seen_cookie.get((c, h)) if (persist and set_cookie) else None
         if (r["cookie"] or None) != expect:
             problems.append(f"{c}: Cookie {r['cookie']!r}, expected {expect!r}")
         if set_cookie:
-            seen_cookie[c] = f"sid=c{li}-bank-{c.lower()}.example"
+            seen_cookie[(c, h)] = f"sid=c{li}-{h}"
     return problems
 
 
 def cases(tier):
     n = 4 if tier == "thorough" else 3
     out = []
-    steps = [(c, k) for c in "AB" for k in ("post", "dry", "full")] + [("A", "moved")]
+    steps = [(c, k) for c in "AB" for k in ("post", "dry", "full")] + [("A", "moved"), ("A", "elsewhere")]
     for persist in (True, False):
         for sc in (True, False):
             for ln in range(1, n + 1):
@@ -153,6 +169,6 @@ class A_(Arg):
 CONTRACTS = [
     Contract("ofxtools.Client:OFXClient.post_request", args=[A_("persist"), A_("set_cookie"), A_("seq")], call=check_scenario,
              ensures=[("scenario-clean", "result == []")], cases=cases, native_only=True, shards=16,
-             notes="all request sequences of length <= 3 (4 in thorough) over two client instances x {post, dry run, post with profile look-up} x persist_cookies x cookie-setting server, on the real urllib opener with a fake transport and a scratch data directory",
+             notes="all request sequences of length <= 3 (4 in thorough) over two client instances x {post, dry run, post with profile look-up, profile advertising a moved path, profile advertising another host} x persist_cookies x cookie-setting server, on the real urllib opener with a fake transport and a scratch data directory",
              props=["C14"]),
 ]
